@@ -487,6 +487,9 @@ func GenQueries(r *Rng, v *imgView, n int) []Query {
 			qs = append(qs, Query{Kind: "data", ID: v.someID(r)})
 		case 1:
 			qs = append(qs, Query{Kind: "meta", ID: v.someID(r)})
+			if r.Chance(1, 2) {
+				qs = append(qs, Query{Kind: "header"})
+			}
 		default:
 			q := Query{Kind: "many"}
 			if r.Chance(2, 5) {
